@@ -220,7 +220,7 @@ Lemma fault_reaches_peer_sender : forall p st,
   (* a walk error (or the walker seeing its context cancelled, or a failed SendMsg(STAT)) puts
      the walker on the error path ... *)
   (forall st', step p st LSWalkErr = Some st' -> err_path_s st') /\
-  (sw_pc st = SW_Next -> s_cancel st = true -> forall st', step p st LSWalk = Some st' -> err_path_s st') /\
+  (sw_pc st = SW_Next -> sw_i st < nentries p -> s_cancel st = true -> forall st', step p st LSWalk = Some st' -> err_path_s st') /\
   (forall k, sw_pc st = SW_Send k -> s_broken st = true -> forall st', step p st LSWalk = Some st' ->
      err_path_s st' \/ k = KErr) /\
   (* ... on which its only move is LSWalk, no other label changes its pc, and the move is either
@@ -236,7 +236,7 @@ Lemma fault_reaches_peer_sender : forall p st,
 Proof.
   intros p st. repeat split.
   - intros st' H. unfold_steps H; step_split H; inv_some; subst; left; reflexivity.
-  - intros A B st' H. unfold_steps H. rewrite A, B in H. inv_some. subst. left. reflexivity.
+  - intros A Lt B st' H. unfold_steps H. apply Nat.ltb_lt in Lt. rewrite A, Lt, B in H. inv_some. subst. left. reflexivity.
   - intros k A B st' H. unfold_steps H. rewrite A, B in H. cbn in H. destruct k; inv_some; subst; cbn;
     [left; left; reflexivity | left; left; reflexivity | right; reflexivity].
   - destruct H as [H|H]; unfold step, step_walker_err; rewrite H; reflexivity.
